@@ -1,4 +1,5 @@
 import QVerif.Lemmas.RunnerData
+import QVerif.Lemmas.RunnerOnce
 
 /-!
 # C06 — batching wrapper: every caller gets exactly the results of its own pubs
@@ -35,5 +36,70 @@ theorem C06_slice_is_own_results (th0 : List TS) (h0 : ∀ x ∈ th0, x.loc = .i
   · have : rs = b := by injection h
     subst this; exact hslice
   · cases h
+
+/-- all pubs of all calls the threads will ever make -/
+def submitted (th0 : List TS) : List Nat := th0.flatMap (fun x => x.todo.flatten)
+
+/-- **C06 (never more than once).** At every moment of every execution, each pub has been handed to `f` at most as often
+as it was submitted (for pairwise different pubs: at most once). -/
+theorem C06_handed_at_most_once (th0 : List TS) (h0 : ∀ x ∈ th0, x.loc = .idle) {s : St} (hr : Reachable th0 s) (a : Nat) :
+    s.handed.count a ≤ (submitted th0).count a := by
+  have hp := account_reachable th0 h0 hr
+  unfold submitted
+  rw [← hp.count_eq a]
+  simp only [St.account, List.count_append]
+  omega
+
+/-- **C06 (exactly once).** When all calls have returned, the pubs handed to `f` over all its invocations are, as a
+multiset, exactly the pubs submitted: every submitted pub was handed to the wrapped primitive exactly once. -/
+theorem C06_each_pub_once (th0 : List TS) (h0 : ∀ x ∈ th0, x.loc = .idle) {s : St} (hr : Reachable th0 s)
+    (hdone : ∀ t, (s.get t).loc = .idle ∧ (s.get t).todo = []) :
+    s.handed.Perm (submitted th0) := by
+  have hp := account_reachable th0 h0 hr
+  obtain ⟨_, _, _, _, _, _, _, _, hb, hres, hexn⟩ := quiescent_reset th0 h0 hr (fun t => (hdone t).1)
+  have hpend : s.th.flatMap TS.pending = [] := by
+    rw [List.flatMap_eq_nil_iff]
+    intro x hx
+    obtain ⟨i, hi, rfl⟩ := List.mem_iff_getElem.mp hx
+    have hd := hdone i
+    rw [get_eq_getElem s i hi] at hd
+    simp [TS.pending, hd.1, hd.2, Loc.preAppend]
+  have hopen : s.openBatch = [] := by simp [St.openBatch, hb]
+  simpa [St.account, hpend, hopen, submitted] using hp
+
+/-! ### Non-vacuity: a complete execution (two threads, three calls, one batch of two callers) -/
+
+def runActs (s : St) : List Act → Option St
+  | [] => some s
+  | a :: t => (step s a).bind (fun s' => runActs s' t)
+
+theorem reachable_run (th0 : List TS) : ∀ (acts : List Act) (s s' : St), Reachable th0 s → runActs s acts = some s' → Reachable th0 s'
+  | [], s, s', hr, h => by simp only [runActs, Option.some.injEq] at h; exact h ▸ hr
+  | a :: t, s, s', hr, h => by
+      simp only [runActs] at h
+      cases hs : step s a with
+      | none => rw [hs] at h; simp at h
+      | some s1 => rw [hs] at h; exact reachable_run th0 t s1 s' (Reachable.next a hr hs) h
+
+def exTh : List TS := [{ todo := [[1, 2], [5]] }, { todo := [[3]] }]
+
+/-- thread 0 and thread 1 enter the same batch (thread 1 executes it), then thread 0 makes its second call alone -/
+def exActs : List Act :=
+  [.step 0, .step 0, .step 0, .step 0, .step 0,            -- t0: idle→a0→a1→a2→a3→a4  (appended [1,2])
+   .step 1, .step 1, .step 1, .step 1, .step 1,            -- t1: …                     (appended [3])
+   .step 0, .step 0, .step 0, .step 0, .step 0,            -- t0: a4→b0→b1→c0 (not last)→c1→c2 (waits)
+   .step 1, .step 1, .step 1, .step 1,                      -- t1: a4→b0→b1→b2→b3 (executor)
+   .fret 1 false, .step 1,                                  -- f returns; b4→d0
+   .step 1, .step 1, .step 1,                               -- t1: d0→d1 (notify)→d2→g0
+   .step 0, .step 0, .step 0, .step 0, .step 0,            -- t0: c2→d0→d1→d2→r→idle
+   .step 1, .step 1, .step 1, .step 1, .step 1, .step 1,   -- t1: g0→g4→g5→g6→g7→r→idle
+   .step 0, .step 0, .step 0, .step 0, .step 0, .step 0, .step 0, .step 0, .step 0,   -- t0 second call, alone: …→b3
+   .fret 0 false,
+   .step 0, .step 0, .step 0, .step 0, .step 0, .step 0, .step 0, .step 0, .step 0, .step 0]
+
+example : (match runActs { th := exTh } exActs with
+    | some s => decide (((s.get 0).loc = .idle ∧ (s.get 0).todo = [] ∧ (s.get 1).loc = .idle ∧ (s.get 1).todo = []) ∧ s.handed = [1, 2, 3, 5] ∧
+                        (s.get 0).outs = [(.ok [1, 2, 3], 0), (.ok [5], 0)] ∧ (s.get 1).outs = [(.ok [1, 2, 3], 2)])
+    | none => false) = true := by decide +kernel
 
 end Runner
